@@ -137,7 +137,7 @@ def spec_label(sd):
 
 
 def srv_label(srv):
-    return "srv%d%s" % (srv["max"], "+hrr" if srv["hrr"] else "")
+    return "srv%d%s%s" % (srv["max"], "+hrr" if srv["hrr"] else "", "+cookie%d" % srv["cookie"] if srv.get("cookie") else "")
 
 
 def first_failure(ev):
